@@ -54,6 +54,19 @@ func init() {
 	propNotDecided["C03"] = []string{
 		"filesystems (fat12/16/32, ext4, iso9660, squashfs) and backend.SubStorage: not yet under contract in this check",
 	}
+	propAssumptions["C10"] = []string{
+		"FAT (fat12 package, shared by fat16/fat32): the handle's cluster chain is valid and covers the file size (ghost chainok/chainlen of getClusterList, whose contract is trusted here and whose memory safety belongs to C18), bytesPerCluster is a power of two in 512..32768",
+		"ext4: the flat extent list starts at block 0, is contiguous, has non-empty runs and covers the size (extentsOK); block size in {1024,2048,4096,65536}",
+		"iso9660: block size in {2048,4096,8192} for the extent clause; squashfs: only Seek/Close/size are under contract",
+		"pointer fields of a handle (inode, filesystem, directory entry, extent array) do not alias the handle object itself (separation preconditions)",
+		"io.ReaderAt behaves as documented",
+	}
+	propNotDecided["C10"] = []string{
+		"byte content returned by Read (placement of each device read is pinned for FAT and ISO; ext4 data placement and squashfs decompression are not)",
+		"squashfs.(*File).Read (closure + cache + fragment logic: not discharged within the time limits, removed from the claim)",
+		"ext4.(*File).Read: non-negativity of the per-extent byte count and progress (see unclaimed_obligations)",
+		"sequences of calls (each call is specified against the handle state it starts from)",
+	}
 	propAssumptions["C12"] = []string{"partition.Read: GPT is probed before MBR (call-site assertions); filesystem probing in disk.GetFilesystem is not under contract"}
 	propNotDecided["C12"] = []string{"filesystem type recognition (disk.GetFilesystem and the per-filesystem Read acceptance tests)", "stale bytes of a previous filesystem", "labels and contents"}
 }
